@@ -13,7 +13,7 @@ import (
 
 // FuzzKeysetReaders uses Go's fuzzing engine purely as an input SOURCE for the readers (C14, thorough
 // tier). The corpus is seeded with valid serialized keysets in every form. Nothing is judged here: every
-// panic, every accepted input and a 1/64 sample of the rejected ones are appended as "bytes" events to
+// panic, the accepted inputs (the first 2000 per worker, then 1/32) and 1/256 of the rest are appended as "bytes" events to
 // $C14_FUZZ_LOG.<pid>; Trace_KeysetValidate.tla judges them. Panics inside Tink are recovered and
 // logged, so the engine keeps going; a crash the runtime cannot recover from leaves a crasher file.
 var (
@@ -21,6 +21,7 @@ var (
 	fuzzLog  *os.File
 	fuzzMu   sync.Mutex
 	fuzzN    atomic.Int64
+	fuzzAcc  atomic.Int64
 )
 
 var fuzzForms = []struct {
@@ -77,7 +78,18 @@ func FuzzKeysetReaders(f *testing.F) {
 			outs = append(outs, o)
 		}
 		n := fuzzN.Add(1)
-		if fuzzLog == nil || !(interesting || n%64 == 0) {
+		panicked := false
+		for _, o := range outs {
+			if o.Out == "panic" || (o.Prim != nil && o.Prim.Panic) {
+				panicked = true
+			}
+		}
+		keep := panicked || n%256 == 0
+		if interesting && !keep { // accepted inputs: the first 2000 of this worker, then one in 32
+			a := fuzzAcc.Add(1)
+			keep = a <= 2000 || a%32 == 0
+		}
+		if fuzzLog == nil || !keep {
 			return
 		}
 		b, _ := json.Marshal(vt.Ev{"ev": "bytes", "n": n, "form": "fuzz-" + ff.form, "seed": 0, "ops": "go-fuzz", "len": len(data),
